@@ -343,6 +343,56 @@ def load_known(pid):
     return known
 
 
+
+# ----------------------------------------------------------------------------
+# source fingerprints: a change in the code a property is anchored in is not a
+# violation (harmless rewrites are allowed), but it is a reason to look harder:
+# the quick tier then runs a multiple of its usual case budget
+# ----------------------------------------------------------------------------
+def _ast_fingerprint(path):
+    import ast
+    try:
+        tree = ast.parse(open(path).read())
+    except Exception:  # noqa: BLE001
+        return "unparsable"
+    for node in ast.walk(tree):     # docstrings are not behaviour
+        if isinstance(node, (ast.FunctionDef, ast.AsyncFunctionDef, ast.ClassDef, ast.Module)) and node.body \
+                and isinstance(node.body[0], ast.Expr) and isinstance(getattr(node.body[0], "value", None), ast.Constant) \
+                and isinstance(node.body[0].value.value, str):
+            node.body = node.body[1:] or [ast.Pass()]
+    return hashlib.sha1(ast.dump(tree, include_attributes=False).encode()).hexdigest()[:16]
+
+
+def anchored_files(pid):
+    files = []
+    try:
+        for line in open(os.path.join(ROOT, "properties.jsonl")):
+            p = json.loads(line)
+            if p["id"] == pid:
+                files = list(p.get("anchors", {}).get("files", []))
+    except Exception:  # noqa: BLE001
+        pass
+    return files
+
+
+def repo_root():
+    return os.environ.get("VERIF_REPO") or "/repo"
+
+
+def source_fingerprints(pid):
+    return {f: _ast_fingerprint(os.path.join(repo_root(), f)) for f in anchored_files(pid)}
+
+
+def source_changed(pid):
+    """Files of the property's anchors whose AST differs from the recorded baseline
+    (harness/source_baseline.json, regenerated by tools/source_baseline.py after every fix: commit)."""
+    try:
+        base = json.load(open(os.path.join(ROOT, "harness", "source_baseline.json")))
+    except Exception:  # noqa: BLE001
+        return []
+    cur = source_fingerprints(pid)
+    return sorted(f for f, h in cur.items() if base.get(f) != h)
+
 # ----------------------------------------------------------------------------
 # main driver
 # ----------------------------------------------------------------------------
@@ -476,6 +526,13 @@ def main(prop, argv=None):
     rng = random.Random(args.seed * 1000003 + 17)
     corpus = load_corpus(pid)
     gen = prop.generate(rng, tier)
+    changed_src = source_changed(pid)
+    if changed_src and tier == "quick" and not os.environ.get("VERIF_NO_BOOST"):
+        # the anchored code differs from the baseline: triple the quick budget (two more quick batches from
+        # independent PRNG states plus a slice of the thorough tier's larger cases)
+        g2 = prop.generate(random.Random(args.seed * 7919 + 101), "quick")
+        g3 = prop.generate(random.Random(args.seed * 104729 + 7), "thorough")[:len(gen)]
+        gen = gen + g2 + g3
     cases = corpus + gen
     recs = evaluate_cases(prop, cases) if ok else []
 
@@ -562,6 +619,8 @@ def main(prop, argv=None):
             "corpus_cases": len(corpus), "correspondence_disagreements": n_diff,
             "oracle_failures": n_orc, "known_finding_hits": known_hits,
             "distribution": stats,
+            "anchored_source_changed_since_baseline": changed_src,
+            "case_budget": "tripled (anchored source differs from harness/source_baseline.json)" if (changed_src and tier == "quick") else "standard",
         },
         "assumptions": list(getattr(prop, "ASSUMPTIONS", [])),
         "wall_s": round(wall, 2), "violations": len(violations),
